@@ -207,3 +207,39 @@ func (r *Raft) VerifRunCandidate() { r.runCandidate() }
 func (r *Raft) VerifCandidateFromLeadershipTransfer() bool {
 	return r.candidateFromLeadershipTransfer.Load()
 }
+
+// VerifReplResult is the follower's replication state after one replicateTo.
+type VerifReplResult struct {
+	NextIndex, MatchIndex, Failures     uint64
+	AllowPipeline, ShouldStop, StepDown bool
+}
+
+// VerifReplicateTo runs replicateTo once, on the calling goroutine, for a
+// follower whose replication state starts at nextIndex.
+func (r *Raft) VerifReplicateTo(peer Server, nextIndex, lastIndex uint64) VerifReplResult {
+	conf := Configuration{Servers: []Server{{Suffrage: Voter, ID: r.localID, Address: r.localAddr}, peer}}
+	s := &followerReplication{
+		peer:                peer,
+		commitment:          newCommitment(make(chan struct{}, 1), conf, 0),
+		stopCh:              make(chan uint64, 1),
+		triggerCh:           make(chan struct{}, 1),
+		triggerDeferErrorCh: make(chan *deferError, 1),
+		currentTerm:         r.getCurrentTerm(),
+		nextIndex:           nextIndex,
+		lastContact:         time.Now(),
+		notify:              make(map[*verifyFuture]struct{}),
+		notifyCh:            make(chan struct{}, 1),
+		stepDown:            make(chan struct{}, 1),
+	}
+	stop := r.replicateTo(s, lastIndex)
+	res := VerifReplResult{NextIndex: s.nextIndex, Failures: s.failures, AllowPipeline: s.allowPipeline, ShouldStop: stop}
+	s.commitment.Lock()
+	res.MatchIndex = s.commitment.matchIndexes[peer.ID]
+	s.commitment.Unlock()
+	select {
+	case <-s.stepDown:
+		res.StepDown = true
+	default:
+	}
+	return res
+}
